@@ -85,7 +85,7 @@ def run(ctx):
     ctx.count(len(todo))
     objs = []
     for ver, s in todo:
-        o, e = obs.construct(ver, s)
+        o, e = obs.construct(ver, s, warm=True)
         if o is None:
             ctx.violation("v%s:valid-vector-rejected" % ver, "accepted vector rejected", s, "accepted", e, replay={"ver": ver, "s": s})
             continue
@@ -108,7 +108,7 @@ def run(ctx):
         official = core.run_driver(sev_lines)
         for (ver, i, t), off in zip(keys, official):
             s = atlas[(ver, i, t)]
-            o, _ = obs.construct(ver, s)
+            o, _ = obs.construct(ver, s, warm=True)
             got = o.severities()[i]
             if got != off:
                 ctx.violation("v%s:rating-of-%s" % (ver, "%d.%d" % (t // 10, t % 10)), "severity rating differs from the official scale",
@@ -123,7 +123,7 @@ def run(ctx):
 
 def replay(data):
     r = data["replay"]
-    o, e = obs.construct(r["ver"], r["s"])
+    o, e = obs.construct(r["ver"], r["s"], warm=True)
     if o is None:
         return False, "rejected %s" % e
     atlas = {}
